@@ -68,12 +68,20 @@ def check_input(dc, st, raw, r=None):
         st.inc('oos')
         return
     u = ea.impl_unpack(dc.K, raw)
+    if u[0] == 'exc' and len(raw) > 3:
+        st.violate('rejects with another exception', 'unpack(%r): unpack raised %r, which is not a PacketError | %s' % (raw, u[1], dc.src),
+                   dc.case(raw=raw), dc.snippet('print(K.unpack(%r))' % raw))
     if len(raw) <= 3 or u[0] == 'ok':
         try:
             silent = dc.K.unpack(raw, silent=True)
         except Exception as e:
             silent = e
-        if (u[0] == 'ok') != (silent is not None and not isinstance(silent, Exception)):
+        if isinstance(silent, Exception) or u[0] == 'exc':
+            # "otherwise it raises PacketError (or returns None with silent=True)": no other exception class, and silent never raises
+            which = 'unpack(silent=True) raised %r' % (silent,) if isinstance(silent, Exception) else 'unpack raised %r, which is not a PacketError' % (u[1],)
+            st.violate('rejects with another exception', 'unpack(%r): %s | %s' % (raw, which, dc.src),
+                       dc.case(raw=raw), dc.snippet('print(K.unpack(%r, silent=True))' % raw))
+        elif (u[0] == 'ok') != (silent is not None and not isinstance(silent, Exception)):
             shown = 'None' if silent is None else ('a %s object' % type(silent).__name__ if not isinstance(silent, Exception) else repr(silent))
             st.violate('silent-mismatch', 'unpack(%r) -> %s but unpack(silent=True) -> %s | %s' % (raw, u[0], shown, dc.src),
                        dc.case(raw=raw), dc.snippet('print(K.unpack(%r, silent=True))' % raw))
